@@ -22,7 +22,7 @@ namespace Qryn.LogQL
 open Qryn Qryn.Sql
 
 /-! ### columns of a series row -/
-@[simp] theorem ts_date (t : TsRow) : Row.get t.row "date" = .str t.date := by simp [Row.get, TsRow.row, List.lookup]
+@[simp] theorem ts_date (t : TsRow) : Row.get t.row "date" = .str t.date := by simp [Row.get, TsRow.row]
 @[simp] theorem ts_fp (t : TsRow) : Row.get t.row "fingerprint" = .int t.fp := by simp [Row.get, TsRow.row, List.lookup]
 @[simp] theorem ts_labels (t : TsRow) : Row.get t.row "labels" = .str t.labels := by simp [Row.get, TsRow.row, List.lookup]
 @[simp] theorem ts_type (t : TsRow) : Row.get t.row "type" = .int t.tp := by simp [Row.get, TsRow.row, List.lookup]
